@@ -75,7 +75,48 @@ def load(dotted: str, rebind: dict | None = None, pre: dict | None = None) -> ty
     if pre:
         m.__dict__.update(pre)
     sys.modules[name] = m
-    exec(compile(tree, path, "exec"), m.__dict__)
+    # names the caller rebinds to symbolic stand-ins (numpy, pandas, scipy namespaces) are bound BEFORE the module body runs,
+    # so that module-level tables built with them (np.array(...) constants) are symbolic containers too; if the module body
+    # does something at import time that the stand-ins do not model, the module is executed with its real imports instead
+    # and the names are rebound afterwards (module-level objects are then real ones)
+    done_early = False
+    if rebind:
+        try:
+            early, body = {}, []
+            for node in tree.body:
+                if isinstance(node, (ast.Import, ast.ImportFrom)) and not (isinstance(node, ast.ImportFrom) and node.module == "__future__"):
+                    keep = []
+                    for al in node.names:
+                        bound = al.asname or al.name.split(".")[0]
+                        origin = (node.module or "") if isinstance(node, ast.ImportFrom) else al.name
+                        v = rebind.get(bound, None)
+                        if bound in rebind and not (getattr(v, "__sx_only_if_scipy__", False) and not origin.startswith("scipy")):
+                            early[bound] = v
+                        else:
+                            keep.append(al)
+                    if keep:
+                        n2 = ast.ImportFrom(module=node.module, names=keep, level=node.level) if isinstance(node, ast.ImportFrom) else ast.Import(names=keep)
+                        body.append(ast.copy_location(n2, node))
+                else:
+                    body.append(node)
+            if early:
+                t2 = ast.Module(body=body, type_ignores=[])
+                ast.fix_missing_locations(t2)
+                base = dict(m.__dict__)
+                m.__dict__.update(early)
+                try:
+                    exec(compile(t2, path, "exec"), m.__dict__)
+                    done_early = True
+                except BaseException:  # noqa: BLE001
+                    m.__dict__.clear()
+                    m.__dict__.update(base)
+                    raise
+        except BaseException as ex:  # noqa: BLE001
+            if type(ex).__name__ in ("KeyboardInterrupt", "SystemExit"):
+                raise
+            done_early = False
+    if not done_early:
+        exec(compile(tree, path, "exec"), m.__dict__)
     if rebind:
         for k, v in rebind.items():
             cur = m.__dict__.get(k)
@@ -90,7 +131,7 @@ def load(dotted: str, rebind: dict | None = None, pre: dict | None = None) -> ty
     # path starts from their state right after import, as a fresh process would
     initial = {}
     for k, v in list(m.__dict__.items()):
-        if not k.startswith("__") and type(v) in (set, dict, list) and (not rebind or k not in rebind):
+        if not k.startswith("__") and (type(v) in (set, dict, list) or type(v).__name__ in ("SymArray", "SymSeries", "SymFrame")) and (not rebind or k not in rebind):
             try:
                 initial[k] = _copy.deepcopy(v)
             except Exception:  # noqa: BLE001
@@ -99,7 +140,10 @@ def load(dotted: str, rebind: dict | None = None, pre: dict | None = None) -> ty
     def _reset(d=m.__dict__):
         for k, v0 in initial.items():
             cur = d.get(k)
-            if type(cur) is type(v0):
+            if type(cur) is type(v0) and type(v0) not in (set, dict, list):
+                cur.__dict__.clear()
+                cur.__dict__.update(_copy.deepcopy(v0).__dict__)
+            elif type(cur) is type(v0):
                 cur.clear()
                 if isinstance(cur, list):
                     cur.extend(_copy.deepcopy(v0))
